@@ -1056,7 +1056,12 @@ def _check_computed(case):
 OPTIONAL = [('=IF(FALSE,5)', False), ('=IF(TRUE,5)', 5), ('=IF(2>1,"y")', 'y'), ('=IF(1>2,"y")', False), ('=LOG(100)', 2.0), ('=LEFT("abc")', 'a'),
             ('=RIGHT("abc")', 'c'), ('=TRUNC(2.7)', 2.0), ('=TRUNC(-2.7)', -2.0), ('=FIND("b","abc")', 2), ('=SEARCH("B","abc")', 2),
             ('=SUBSTITUTE("aXbX","X","-")', 'a-b-'), ('=ROUNDDOWN(2.7,0)', 2.0), ('=CEILING(2.1,1)', 3.0), ('=TEXTJOIN("-",TRUE,"a","","b")', 'a-b'),
-            ('=TEXTJOIN("-",FALSE,"a","","b")', 'a--b')]
+            ('=TEXTJOIN("-",FALSE,"a","","b")', 'a--b'),
+            # numbers and logicals given to the text functions are taken by their display form
+            ('=LEN(123)', 3), ('=LEN(TRUE)', 4), ('=LEFT(12345,2)', '12'), ('=RIGHT(12345,2)', '45'), ('=MID(12345,2,2)', '23'),
+            ('=UPPER(TRUE)', 'TRUE'), ('=LOWER(TRUE)', 'true'), ('=SUBSTITUTE(1213,1,"x")', 'x2x3'), ('=SUBSTITUTE("a1b1","1",2)', 'a2b2'),
+            ('=SUBSTITUTE("a1b1",1,"-")', 'a-b-'), ('=REPLACE(12345,2,1,9)', '19345'), ('=REPLACE("abc",2,1,7)', 'a7c'), ('=FIND(2,123)', 2),
+            ('=SEARCH(3,123)', 3), ('=CONCATENATE(1,TRUE,"x")', '1TRUEx'), ('=TRIM(12)', '12'), ('=CONCAT(1.5,2)', '1.52'), ('=VALUE("12")', 12)]
 
 
 def _check_optional(case):
@@ -1080,7 +1085,7 @@ def _classify_computed(case, detail):
 BOUNDED = [
     Stage('B3:optional-arguments-left-out', 'C12', lambda tier, rng: list(OPTIONAL), _check_optional,
           '%d calls of the listed functions with their optional arguments left out (IF without else, LOG without base, LEFT / RIGHT without a count, '
-          'TRUNC without digits, FIND / SEARCH without a start, TEXTJOIN ignoring / keeping empty text)' % len(OPTIONAL), parallel=False),
+          'TRUNC without digits, FIND / SEARCH without a start, TEXTJOIN ignoring / keeping empty text) and of the text functions with numbers / logicals as arguments' % len(OPTIONAL), parallel=False),
     Stage('B2:computed-arguments-count-as-typed', 'C12', lambda tier, rng: list(COMPUTED), _check_computed,
           '%d aggregations with an argument computed in place (a comparison, NOT(), arithmetic, a function call, a concatenation)' % len(COMPUTED),
           classify=_classify_computed, parallel=False),
